@@ -174,6 +174,34 @@ def _position_leaf_index(st):
     return [i for i, p in enumerate(paths) if p.endswith(".buffer.position")][0]
 
 
+def native_loop_count_replay(algo_name, which):
+    """R1: real reset / iteration on a real environment: per-environment buffer positions after warm-up equal learning_starts, and each iteration adds num_steps, for a grid of
+    (learning_starts, num_steps, num_envs) including non-multiples."""
+    def replay(model):
+        from lerax.env.classic_control import CartPole, Pendulum
+        from lerax.policy import MLPQPolicy, MLPSACPolicy
+        from lvc.generic import SimpleCallback
+        cb = SimpleCallback("cb")
+        for ls, ns, ne in ((10, 4, 1), (3, 4, 1), (5, 2, 2), (4, 4, 1), (7, 3, 2)):
+            if algo_name == "DQN":
+                env = CartPole()
+                algo = DQN(num_envs=ne, buffer_size=64, learning_starts=ls, num_steps=ns, batch_size=2)
+                pol = MLPQPolicy(env, width_size=4, depth=1, key=jax.random.key(0))
+            else:
+                env = Pendulum()
+                algo = SAC(num_envs=ne, buffer_size=64, learning_starts=ls, num_steps=ns, batch_size=2, q_width_size=4, q_depth=1)
+                pol = MLPSACPolicy(env, feature_size=4, width_size=4, depth=1, key=jax.random.key(0))
+            st = algo.reset(env, pol, key=jax.random.key(1), callback=cb)
+            p0 = np.asarray(st.step_state.buffer.position).reshape(-1).tolist()
+            st1 = algo.iteration(st, key=jax.random.key(2), callback=cb)
+            p1 = np.asarray(st1.step_state.buffer.position).reshape(-1).tolist()
+            if p0 != [ls] * ne or p1 != [ls + ns] * ne:
+                return dict(reproduced=True, route=f"R1 (real {algo_name}.reset / iteration on a real environment and policy)", inputs=dict(learning_starts=ls, num_steps=ns, num_envs=ne),
+                            observed=dict(stored_after_warm_up=p0, stored_after_one_iteration=p1, expected=[[ls] * ne, [ls + ns] * ne]))
+        return dict(reproduced=False, note="warm-up stores learning_starts and every iteration num_steps transitions per environment on 5 configurations")
+    return replay
+
+
 def unit_loops(S):
     """collect_learning_starts / collect_rollout: one forward scan of length learning_starts / num_steps whose body is
     `step` (callee contract: buffer.position' = buffer.position + 1, via add's contract); hence position grows by exactly
@@ -203,7 +231,7 @@ def unit_loops(S):
             dz = ctx.dim(dim)
             tag = f"{algo_name}.{which}"
             ok = len(ctx.scans) == 1 and z3.is_expr(ctx.scans[0].length) and ctx.scans[0].length.eq(dz) and not ctx.scans[0].reverse
-            S.fact(f"{tag}/one-scan-of-length", ok, function=fname, what=f"one forward scan with trip count {dim} (symbolic)")
+            S.fact(f"{tag}/one-scan-of-length", ok, function=fname, what=f"one forward scan with trip count {dim} (symbolic)", replay=native_loop_count_replay(algo_name, which))
             if not ok:
                 continue
             rec = ctx.scans[0]
